@@ -78,6 +78,7 @@ def build(chk):
     c_load(chk)
     c_load_collisions(chk)
     c_change_basis(chk)
+    c_change_basis_history(chk)
     c_interpolate(chk)
 
 
@@ -218,6 +219,39 @@ def c_change_basis(chk):
         chk.vc(f"changeBasis.{start}-to-{target}.operator-action-unchanged", [], And(*goals), func=fn)
         chk.vc(f"changeBasis.{start}-to-{target}.basis-recorded", [], sym.to_sym(bt == target), func=fn)
         chk.canary(f"changeBasis.{start}-to-{target}", [], Eq(sp.expand(sp.simplify(before.reshape(-1)[0] - 2 * after.reshape(-1)[0])), 0), func=fn)
+
+
+def c_change_basis_history(chk):
+    """A second, OPPOSITE basis change on the same grid object (another array, or a reload for a solver with the other momentum basis) is as
+    good as the first: nothing the first conversion may have left on the grid or its polynomials is reused for a different conversion."""
+    fn = "collisionArray.CollisionArray.changeBasis"
+    P, N = 1, 3
+    n = N - 1
+    for first, second in (("Chebyshev", "Cardinal"), ("Cardinal", "Chebyshev")):
+        C0, D0 = tensor(P, n), tensor(P, n, tag="D")
+        g0 = as_array([[[real(f"g_{b}{j}{k}") for k in range(n)] for j in range(n)] for b in range(P)])
+
+        def body(it, first=first, second=second):
+            grid = make_grid(it, M, N)
+
+            def coll(T, basis):
+                poly = it.instantiate(ClassRef("polynomial", "Polynomial"),
+                                      [T.copy(), grid, ("Array", "Cardinal", "Cardinal", "Array", basis, basis), ("Array", "pz", "pp", "Array", "pz", "pp"), False], {})
+                return it.call(it.getattr(ClassRef("collisionArray", "CollisionArray"), "newFromPolynomial"), [poly, particles(P)], {})
+            it.call_method(coll(C0, first), "changeBasis", [second], {})            # first conversion on this grid: first -> second
+            out = it.call_method(coll(D0, second), "changeBasis", [first], {})      # then the opposite one, on another array
+            gpoly = it.instantiate(ClassRef("polynomial", "Polynomial"), [g0.copy(), grid, ("Array", second, second), ("Array", "pz", "pp"), False], {})
+            it.call_method(gpoly, "changeBasis", [("Array", first, first)], {})
+            return (as_array(out.attrs["polynomialData"].attrs["coefficients"]), as_array(gpoly.attrs["coefficients"])), {}
+        paths = [p for p in enumerate_paths(body, externals=POLY_EXT) if p.outcome == "return"]
+        chk.path_count += len(paths)
+        if len(paths) != 1:
+            chk.undecided.append(f"changeBasis history[{first}->{second}, then back]: {len(paths)} returning paths")
+            continue
+        D1, g1 = paths[0].value
+        before, after = apply_operator(D0, g0), apply_operator(D1, g1)
+        goals = [Eq(sp.expand(sp.simplify(a_ - b_)), 0) for a_, b_ in zip(before.reshape(-1), after.reshape(-1))]
+        chk.vc(f"changeBasis.after-{first}-to-{second}.opposite-conversion-on-the-same-grid.operator-action-unchanged", [], And(*goals), func=fn)
 
 
 def c_interpolate(chk):
